@@ -180,7 +180,12 @@ func RunReadP(c *websocket.Conn, steps []RStep, max int, lens []int, extraAfter 
 			var v interface{}
 			// ReadJSON hides the message type; use NextReader-equivalent
 			// semantics by calling the public ReadJSON.
-			err := c.ReadJSON(&v)
+			var err error
+			if si%2 == 1 {
+				err = websocket.ReadJSON(c, &v) // the deprecated package-level spelling
+			} else {
+				err = c.ReadJSON(&v)
+			}
 			m := RMsg{Op: st.Op, MT: -1, JSONVal: v, JSONErr: err}
 			if isConnLevelErr(err) {
 				tr.Final = err
